@@ -126,9 +126,17 @@ let exec toks =
       let base =
         if n = 5 && List.mem N0 ws then
           let hrv = hand_rank_value c ws in
-          base @ [ s_res s_n hrv; s_res (fun x -> s_hr (hr_from x)) hrv ]
+          let vv = hand_rank_value_validated c ws in
+          base
+          @ [ s_res s_n hrv; s_res (fun x -> s_hr (hr_from x)) hrv; s_res (fun (x, _) -> s_n x) (hrvh c ws); s_res s_n vv;
+              s_res (fun x -> s_hr (hr_from x)) vv; s_res s_n (evaluate_five_cards c ws) ]
         else base in
       String.concat " " base
+  | "hrankv" ->
+      let ws = List.tl (nums ()) in
+      String.concat " "
+        [ s_res (fun x -> s_hr (hr_from x)) (hand_rank_value_validated c ws);
+          s_res (fun x -> s_b (hr_eqb (hr_from x) (hr_from x))) (hand_rank_value c ws) ]
   | "fipp" -> (match find_in_products c (List.hd (nums ())) with Ok _ -> "ok" | Panic -> "P" | Diverge -> "DIVERGE")
   | "fip" -> s_res s_n (find_in_products c (List.hd (nums ())))
   | "pred5" ->
